@@ -40,6 +40,10 @@ def run(tier, seed):
     rep = Report("C17", tier, seed, level="exploration")
     from bounded.driver import replay_known, run_bounded
 
+    from contracts.stats_c import stats_contract
+    from pyvc.runner import run_contracts
+
+    run_contracts(rep, [stats_contract()])
     replay_known(rep, "C17")
     q = tier == "quick"
     run_bounded(rep, "C17", [("general", {}, "calls", 800 if q else 15000), ("state-only", {"modules": True, "state_only": True}, "modules", 150 if q else 2000), ("modules", {"modules": True, "collide": False}, "modules-rl", 600 if q else 8000),
@@ -47,5 +51,8 @@ def run(tier, seed):
                 budget_s=70 if q else 1200, seed=seed)
     corner_programs(rep)
     rep.trust("bounded/props.py:check_stats (recount of lines, bytes with two-byte line ends, distinct r0-r15 tokens)")
-    rep.assume("generated programs never write user-chosen register names, so every r<N> token in the output was allocated by the transpiler")
+    rep.assume("proved part (block contract on the real statements of get_code): the reported numbers are computed from the returned text by the property's formulas; the version-note statement is abstracted (any text), everything before it is the symbolic input",
+               "len(x.splitlines()) is taken as the line count of x (equal to the number of '\\n'-separated lines for emitted text; the bounded recount uses split('\\n') independently)",
+               "that used_registers contains every allocated register is NOT proved (register_assignment.assign_registers is bounded only: recount of r<N> tokens in the output)",
+               "generated programs never write user-chosen register names, so every r<N> token in the output was allocated by the transpiler")
     return rep.finish(min_obligations=1)
